@@ -583,6 +583,10 @@ theorem apply_j {s s' : St} {o : Op} (hi : Inv s) (e : apply s o = .ok s') : J s
   | fraud au ra hh rev p rw => exact fraud_j hi e
   | obsolete au vs => exact markObsolete_j hi e
   | punish au a rw => exact (punish_good (punishProposal_ok e).2).J hi.j
+  | transferOwner sg ra' no =>
+    obtain ⟨r, hg, _, _, _, rfl⟩ := transferOwner_ok e
+    exact (Good.setRa rfl rfl rfl (r0 := r) (r1 := { r with owner := no })
+      (by show getRa s r.id = some r; rw [getRa_id hg]; exact hg) rfl (fun x => x.of_fields rfl rfl rfl)).J hi.j
   | begin_ dt =>
     simp only [apply] at e; injection e with e; subst e
     exact (beginBlock_good hi.cust.nodup).J hi.j
